@@ -1,4 +1,339 @@
-def run_c13_api(ctx):
+"""
+Edit histories on the real pycdlib (in-process) and their comparison with the Lean specification and the
+independent Lean readers.  Shared by C01-C14 / C17.
+
+A history is (cfg, ops).  cfg = dict(ilevel, joliet, rr, udf, xa).  ops are dicts:
+  addfp   cid n [iso rr joliet udf mode]        adddir  [iso rr joliet udf mode]
+  rmfile  ns path                               rmdir   [iso joliet udf]
+  addlink ons old nns new [rr]                  rmlink  ns path
+  addsym  [iso rr target joliet udf utarget]    hide/unhide ns path
+  force / query ns path / write / reopen        (schedule ops, C06 / C02)
+  eltorito ..., rmeltorito, isohybrid ..., rmisohybrid, duppvd   (C11/C12)
+Paths are Python str as the API takes them.  File contents come from content(cid, n), the same byte function the
+Lean specification uses (Spec.content).
+"""
+import contextlib
+import io
+import os
+import time
+
+from harness import core
+
+FIXED_TIME = 1700000000.0
+
+
+def content(cid, n):
+    return bytes(((cid * 37 + i * 11 + (i >> 8) * 3 + 5) % 251) for i in range(n))
+
+
+_content_cache = {}
+
+
+def content_cached(cid, n):
+    k = (cid, n)
+    if k not in _content_cache:
+        if len(_content_cache) > 400:
+            _content_cache.clear()
+        _content_cache[k] = content(cid, n)
+    return _content_cache[k]
+
+
+@contextlib.contextmanager
+def frozen_time(t=FIXED_TIME):
+    real = time.time
+    time.time = lambda: t
+    try:
+        yield
+    finally:
+        time.time = real
+
+
+def exc_class(e):
+    from pycdlib import pycdlibexception as pe
+    if isinstance(e, pe.PyCdlibInvalidInput):
+        return 'invalidInput'
+    if isinstance(e, pe.PyCdlibInvalidISO):
+        return 'invalidISO'
+    if isinstance(e, pe.PyCdlibInternalError):
+        return 'internalError'
+    return 'py:' + type(e).__name__
+
+
+def new_iso(cfg, always_consistent=False):
+    import pycdlib
+    iso = pycdlib.PyCdlib(always_consistent=always_consistent)
+    iso.new(interchange_level=cfg.get('ilevel', 1), joliet=cfg.get('joliet'), rock_ridge=cfg.get('rr'),
+            xa=cfg.get('xa', False), udf=cfg.get('udf'), vol_ident=cfg.get('vol_ident', ''))
+    return iso
+
+
+def _kw(d, **names):
+    return {k: d[v] for k, v in names.items() if d.get(v) is not None}
+
+
+def apply_op(iso, op):
+    """Run one op on the real API. Returns 'ok' or the refusal class."""
+    o = op['op']
+    try:
+        if o == 'addfp':
+            data = content_cached(op['cid'], op['n'])
+            kw = _kw(op, iso_path='iso', rr_name='rr', joliet_path='joliet', udf_path='udf', file_mode='mode')
+            iso.add_fp(io.BytesIO(data), op['n'], **kw)
+        elif o == 'adddir':
+            iso.add_directory(**_kw(op, iso_path='iso', rr_name='rr', joliet_path='joliet', udf_path='udf', file_mode='mode'))
+        elif o == 'rmfile':
+            iso.rm_file(**{{'i': 'iso_path', 'j': 'joliet_path', 'u': 'udf_path'}[op['ns']]: op['path']})
+        elif o == 'rmdir':
+            iso.rm_directory(**_kw(op, iso_path='iso', joliet_path='joliet', udf_path='udf'))
+        elif o == 'addlink':
+            kw = {{'i': 'iso_old_path', 'j': 'joliet_old_path', 'u': 'udf_old_path'}[op['ons']]: op['old'],
+                  {'i': 'iso_new_path', 'j': 'joliet_new_path', 'u': 'udf_new_path'}[op['nns']]: op['new']}
+            if op.get('rr') is not None:
+                kw['rr_name'] = op['rr']
+            iso.add_hard_link(**kw)
+        elif o == 'rmlink':
+            iso.rm_hard_link(**{{'i': 'iso_path', 'j': 'joliet_path', 'u': 'udf_path'}[op['ns']]: op['path']})
+        elif o == 'addsym':
+            iso.add_symlink(**_kw(op, symlink_path='iso', rr_symlink_name='rr', rr_path='target', joliet_path='joliet',
+                                  udf_symlink_path='udf', udf_target='utarget'))
+        elif o in ('hide', 'unhide'):
+            fn = iso.set_hidden if o == 'hide' else iso.clear_hidden
+            fn(**{{'i': 'iso_path', 'r': 'rr_path', 'j': 'joliet_path'}[op['ns']]: op['path']})
+        elif o == 'force':
+            iso.force_consistency()
+        elif o == 'query':
+            key = {'i': 'iso_path', 'j': 'joliet_path', 'u': 'udf_path', 'r': 'rr_path'}[op['ns']]
+            rec = iso.get_record(**{key: op['path']})
+            return 'ok'
+        elif o == 'walk':
+            for _ in iso.walk(iso_path='/'):
+                pass
+        elif o == 'duppvd':
+            iso.duplicate_pvd()
+        elif o == 'eltorito':
+            kw = dict(op['kw'])
+            iso.add_eltorito(op['boot'], **kw)
+        elif o == 'rmeltorito':
+            iso.rm_eltorito()
+        elif o == 'isohybrid':
+            iso.add_isohybrid(**op.get('kw', {}))
+        elif o == 'rmisohybrid':
+            iso.rm_isohybrid()
+        else:
+            raise ValueError('unknown op %r' % o)
+        return 'ok'
+    except Exception as e:  # noqa
+        return exc_class(e)
+
+
+# ------------------------------------------------------------------ spec tokens
+
+def ptok(path, enc='utf-8'):
+    """API path string -> '/hex/hex' as the spec protocol wants (normalised the way utils.normpath does)."""
+    comps = [c for c in path.split('/') if c not in ('', '.')]
+    if not comps:
+        return '/'
+    return ''.join('/' + c.encode(enc).hex() for c in comps)
+
+
+def btok(s):
+    if s is None:
+        return '-'
+    b = s.encode('utf-8') if isinstance(s, str) else s
+    return b.hex() if b else '-'
+
+
+def spec_token(op):
+    o = op['op']
+    f = [o]
+    if o == 'addfp':
+        f += ['c=%d' % op['cid'], 'n=%d' % op['n']]
+    if o in ('addfp', 'adddir', 'addsym'):
+        if op.get('iso'):
+            f.append('i=' + ptok(op['iso']))
+        if op.get('rr') is not None:
+            f.append('r=' + btok(op['rr']))
+        if op.get('joliet'):
+            f.append('j=' + ptok(op['joliet']))
+        if op.get('udf'):
+            f.append('u=' + ptok(op['udf']))
+        if op.get('mode') is not None:
+            f.append('m=%d' % op['mode'])
+        if o == 'addsym':
+            f.append('t=' + btok(op.get('target')))
+            f.append('ut=' + btok(op.get('utarget')))
+    elif o in ('rmfile', 'rmlink', 'hide', 'unhide'):
+        f += ['ns=' + op['ns'], 'p=' + ptok(op['path'])]
+    elif o == 'rmdir':
+        for k, t in (('iso', 'i'), ('joliet', 'j'), ('udf', 'u')):
+            if op.get(k):
+                f.append('%s=%s' % (t, ptok(op[k])))
+    elif o == 'addlink':
+        f += ['ons=' + op['ons'], 'o=' + ptok(op['old']), 'nns=' + op['nns'], 'p=' + ptok(op['new'])]
+        if op.get('rr') is not None:
+            f.append('r=' + btok(op['rr']))
+    else:
+        return None
+    return ','.join(f)
+
+
+# ------------------------------------------------------------------ report parsing
+
+class Report:
+    def __init__(self, line):
+        self.raw = line
+        sec = {}
+        for part in line.split(' ;; '):
+            k, _, v = part.partition('=')
+            sec[k] = [x for x in v.split('|') if x] if v else []
+        self.errs = sec.get('errs', [])
+        self.info = dict(x.split('=', 1) for x in sec.get('info', []) if '=' in x)
+        self.allocs = []
+        for a in sec.get('allocs', []):
+            label, _, rng = a.rpartition('@')
+            first, _, cnt = rng.partition('+')
+            self.allocs.append((label, int(first), int(cnt)))
+        self.entries = sec.get('entries', [])
+
+
+def read_image(ctx, path):
+    return Report(ctx.driver.ask(['read ' + path])[0])
+
+
+def parse_entries(entries):
+    """entry strings -> {(ns, kind, path): attrs dict}"""
+    out = {}
+    for e in entries:
+        f = e.split(':')
+        ns, kind, path = f[0], f[1], f[2]
+        if ns == 'B':
+            out[('B', kind, '')] = {'raw': e}
+            continue
+        a = {}
+        if kind == 'F':
+            a['len'] = int(f[3])
+            a['hash'] = f[4]
+            a['loc'] = f[5]
+            rest = f[6:]
+        elif kind == 'L':
+            a['target'] = f[3]
+            rest = f[4:]
+        else:
+            rest = f[3:]
+        for r in rest:
+            if r.startswith('h') and ns in 'IJ':
+                a['hidden'] = r[1:]
+            elif r.startswith('m'):
+                a['mode'] = r[1:] if r[1:] == '*' else int(r[1:])
+            elif r.startswith('n'):
+                a['nlink'] = int(r[1:])
+        out[(ns, kind, path)] = a
+    return out
+
+
+def compare_views(expected_entries, actual_entries):
+    """Spec view vs reader view. Returns list of (code, detail)."""
+    exp = parse_entries(expected_entries)
+    act = parse_entries([e for e in actual_entries if not e.startswith('B:')])
+    diffs = []
+    for k in sorted(set(exp) - set(act)):
+        diffs.append(('missing', '%s:%s:%s' % k))
+    for k in sorted(set(act) - set(exp)):
+        diffs.append(('extra', '%s:%s:%s' % k))
+    blob_of_loc, loc_of_blob = {}, {}
+    for k in sorted(set(exp) & set(act)):
+        e, a = exp[k], act[k]
+        for fld in ('len', 'hash', 'hidden', 'mode', 'nlink', 'target'):
+            if fld == 'mode' and e.get(fld) == '*':
+                if not isinstance(a.get(fld), int) or (a[fld] & 0o170000) != 0o100000:
+                    diffs.append((fld, '%s:%s:%s expected a regular-file mode got %s' % (k + (a.get(fld),))))
+                continue
+            if fld in e and e.get(fld) != a.get(fld):
+                diffs.append((fld, '%s:%s:%s expected %s got %s' % (k + (e.get(fld), a.get(fld)))))
+        if k[1] == 'F' and e.get('len', 0) > 0 and e['loc'].startswith('b') and e['loc'] != 'b-':
+            b, loc = e['loc'], a['loc']
+            if blob_of_loc.setdefault(loc, b) != b:
+                diffs.append(('shared-sectors-unlinked', '%s:%s:%s at sector %s shares data with another content' % (k + (loc,))))
+            if loc_of_blob.setdefault(b, loc) != loc:
+                diffs.append(('linked-not-shared', '%s:%s:%s content %s stored at %s and %s' % (k + (b, loc_of_blob[b], loc))))
+    return diffs
+
+
+def check_allocs(rep):
+    """C04 on the reader's allocation list: pairwise disjoint objects, inside the declared size, exact image length."""
+    bad = []
+    space = int(rep.info.get('space', 0))
+    imgsec = int(rep.info.get('imgsectors', 0))
+    if imgsec != space:
+        bad.append(('image-length', 'image has %d sectors, declared volume size %d' % (imgsec, space)))
+    objs = {}
+    ce = []
+    for label, first, cnt in rep.allocs:
+        if label.startswith('cearea:'):
+            ce.append((label, first, cnt))           # byte offset, byte length
+            continue
+        if cnt == 0:
+            continue
+        kind = 'file' if label.startswith('file:') or label == 'bootcat' else label
+        key = (first, cnt)
+        if kind == 'file':
+            objs.setdefault(('file', key), []).append(label)
+        else:
+            objs.setdefault((label, key), []).append(label)
+    items = sorted(((k[1][0], k[1][0] + k[1][1], k[0], v) for k, v in objs.items()))
+    # CE sectors are objects of their own
+    ce_secs = {}
+    for label, off, ln in ce:
+        if ln:
+            ce_secs.setdefault(off // 2048, []).append((off % 2048, ln, label))
+    for sec, areas in ce_secs.items():
+        areas.sort()
+        for (o1, l1, n1), (o2, l2, n2) in zip(areas, areas[1:]):
+            if o1 + l1 > o2:
+                bad.append(('ce-overlap', 'continuation areas %s and %s overlap in sector %d' % (n1, n2, sec)))
+        items.append((sec, sec + 1, 'ce-sector', ['ce:%d' % sec]))
+    items.sort(key=lambda t: (t[0], t[1]))
+    for (a0, a1, ka, la), (b0, b1, kb, lb) in zip(items, items[1:]):
+        if a1 > b0:
+            bad.append(('overlap', '%s [%d,%d) overlaps %s [%d,%d)' % (la[0], a0, a1, lb[0], b0, b1)))
+    for a0, a1, k, l in items:
+        if a1 > space:
+            bad.append(('out-of-bounds', '%s [%d,%d) beyond declared size %d' % (l[0], a0, a1, space)))
+    return bad
+
+
+# ------------------------------------------------------------------ running histories
+
+class Run:
     pass
-def replay_api(ctx, obj):
-    return []
+
+
+def run_history(ctx, cfg, ops, tmpdir, always_consistent=False, want_image=True):
+    """Execute ops on the real library; returns Run with per-op results, accepted spec tokens, image path."""
+    r = Run()
+    r.results = []
+    r.tokens = []
+    r.sizes = []
+    r.image = None
+    r.write_error = None
+    with frozen_time():
+        iso = new_iso(cfg, always_consistent)
+        for op in ops:
+            if op['op'] == 'write':
+                continue
+            res = apply_op(iso, op)
+            r.results.append(res)
+            if res == 'ok':
+                t = spec_token(op)
+                if t is not None:
+                    r.tokens.append(t)
+            r.sizes.append(iso.pvd.space_size)
+        if want_image:
+            path = os.path.join(tmpdir, 'h%d.iso' % ctx.rng.randrange(10 ** 12))
+            try:
+                iso.write(path)
+                r.image = path
+            except Exception as e:  # noqa
+                r.write_error = exc_class(e) + ':' + str(e)[:100]
+        r.iso = iso
+    return r
